@@ -75,3 +75,12 @@ func init() {
 		Rule: "header harnesses over all 2^18 / 2^35 header values; CRC-24 equivalence with a reference over all 2^24 / 2^40 inputs; whole segments for payload lengths 0..8 (thorough 0..24) with symbolic content and every compressed length the LZ4 contract allows; refusal at 131072",
 	})
 }
+
+func init() {
+	register(&PropCheck{
+		ID: "C07", Pkgs: []string{"segment"}, FnRe: `^VerifC07_`, Level: "model_checking",
+		Post: c07Post,
+		Rule: "the decoder's acceptance condition on fully symbolic header / payload bytes is extracted by symbolic execution, normalised to a GF(2) parity-check system (fails closed if any operation is not affine), and one solver query per error class asks for a non-zero error pattern in the kernel",
+		Assume: []string{"composition step: for an affine acceptance condition A.x=c, x and x^e are both accepted only if A.e=0 (one line of linear algebra, not a solver query)"},
+	})
+}
